@@ -20,7 +20,7 @@ import (
 // ---- C15: cookie matrix, agreement, replaying peer, permissions ----------------
 
 type PermOp struct {
-	Op    string   `json:"op"`    // enspawn disspawn enapp disapp spawn app
+	Op    string   `json:"op"`    // enspawn disspawn enapp disapp spawn app fspawn (spawn request whose parent pid claims the other peer's node)
 	Name  string   `json:"name"`  // s1 s2 | a1 a2
 	Nodes []string `json:"nodes"` // peer labels P1 P2 (empty = no list)
 	Peer  string   `json:"peer"`  // for attempts
@@ -463,6 +463,25 @@ func (r *AccRunner) RunPerm(c *AccCase) error {
 				accWorld.mu.Lock()
 				op.Env = accWorld.last[bname+"/proc"]
 				accWorld.mu.Unlock()
+				b.Kill(pid)
+			}
+		case "fspawn":
+			// the requester is op.Peer (that is the connection the request arrives on); the parent pid inside the request names the
+			// other peer: permissions go by who is connected, not by what the request says about itself
+			other := "P1"
+			if op.Peer == "P1" {
+				other = "P2"
+			}
+			core, ok := peers[op.Peer].(gen.Core)
+			if !ok {
+				return fmt.Errorf("node does not implement gen.Core")
+			}
+			forged := gen.PID{Node: pname[other], ID: 1001, Creation: peers[other].Creation()}
+			extra := gen.ProcessOptionsExtra{ParentPID: forged, ParentLeader: forged, ParentLogLevel: gen.LogLevelInfo}
+			pid, err := core.RouteSpawn(gen.Atom(bname), gen.Atom(op.Name), extra, pname[op.Peer])
+			op.Res = permRes(err)
+			if err == nil {
+				time.Sleep(5 * time.Millisecond)
 				b.Kill(pid)
 			}
 		case "app":
